@@ -85,6 +85,26 @@ def cres(f, call):
     return f"(Ok {f(v)})", "ok"
 
 
+def index_forms(r, c, ints_only=False):
+    """every form in which the API accepts the tile index / pixel (r, c): name -> object"""
+    from odc.geo.types import Index2d, ixy_, iyx_, xy_, yx_
+    forms = {"tuple": (r, c), "iyx_": iyx_(r, c), "ixy_": ixy_(c, r), "Index2d": Index2d(x=c, y=r),
+             "yx_": yx_(r, c), "xy_": xy_(c, r), "iyx_(tuple)": iyx_((r, c)), "ixy_(tuple)": ixy_((c, r))}
+    if not ints_only:
+        forms["(int,slice)"] = (r, slice(c, c + 1))
+        forms["(slice,int)"] = (slice(r, r + 1), c)
+        forms["(slice,slice)"] = (slice(r, r + 1), slice(c, c + 1))
+    return forms
+
+
+FORM_NAMES = ["tuple", "iyx_", "ixy_", "Index2d", "yx_", "xy_"]
+
+
+def as_form(idx, k):
+    """the (r, c) pair in the k-th accepted object form (the model sees the same pair)"""
+    return index_forms(idx[0], idx[1], ints_only=True)[FORM_NAMES[k % len(FORM_NAMES)]]
+
+
 def tiles_desc(t) -> list[int]:
     from odc.geo.roi import Tiles
     if isinstance(t, Tiles):
@@ -193,20 +213,23 @@ def gen_tiles_cases(out, tier):
         for k, i in enumerate(ints):
             j = oth_ints[k % len(oth_ints)] if k % 3 else 0
             idx = two(i, j)
-            t, kind = cres(croi, lambda: T[idx])
-            add("get_int:" + kind, f"CGet {hb} {cidx(idx)} {t}", (key, idx), True,
-                {"op": "getitem", "base": list(base), "how": enc(how), "idx": list(idx), "result": t} if k == 3 else None)
-            t, kind = cres(cpair, lambda: T.tile_shape(idx).yx)
+            fk = counter[0] + k          # the implementation gets the pair as tuple / iyx_ / ixy_ / Index2d / yx_ / xy_
+            fname = FORM_NAMES[fk % len(FORM_NAMES)]
+            t, kind = cres(croi, lambda: T[as_form(idx, fk)])
+            add(f"get_int[{fname}]:" + kind, f"CGet {hb} {cidx(idx)} {t}", (key, idx), True,
+                {"op": "getitem", "base": list(base), "how": enc(how), "idx": list(idx), "form": fname, "result": t}
+                if k == 3 else None)
+            t, kind = cres(cpair, lambda: T.tile_shape(as_form(idx, fk + 1)).yx)
             add("tile_shape:" + kind, f"CTileShape {hb} {cpair(idx)} {t}", (key, idx))
             if tier != "quick" or k % 2 == 0:
-                t, kind = cres(lambda c: clist(tiles_desc(c)), lambda: T.crop(idx))
+                t, kind = cres(lambda c: clist(tiles_desc(c)), lambda: T.crop(idx))   # crop is declared for ROI tuples only
                 add("crop_int:" + kind, f"CCrop {hb} {cidx(idx)} {t}", (key, idx))
             if not geo:
                 continue
-            t, kind = cres(cpair, lambda: G.chunk_shape(idx).yx)
+            t, kind = cres(cpair, lambda: G.chunk_shape(as_form(idx, fk + 3)).yx)
             add("g_chunk_shape:" + kind, f"CGChunkShape {hb} {cpair(idx)} {t}", (key, idx))
-            t, kind = cres(lambda g: clist(gbox_desc(g, root)), lambda: G[idx])
-            add("g_get:" + kind, f"CGGet {hb} {cidx(idx)} {t}", (key, idx))
+            t, kind = cres(lambda g: clist(gbox_desc(g, root)), lambda: G[as_form(idx, fk + 4)])
+            add(f"g_get[{FORM_NAMES[(fk + 4) % len(FORM_NAMES)]}]:" + kind, f"CGGet {hb} {cidx(idx)} {t}", (key, idx))
         for k, s in enumerate(sl):
             other = oth_sl[k % len(oth_sl)] if k % 2 else oth_ints[k % len(oth_ints)]
             idx = two(s, other)
@@ -232,7 +255,7 @@ def gen_tiles_cases(out, tier):
         for p in range(-1, B[ex_axis] + 2):
             q = [0, B[o] - 1, B[o], -1][(p + 1) % 4] if p % 5 == 4 else rng.randint(0, max(0, B[o] - 1))
             pix = two(p, q)
-            t, kind = cres(cpair, lambda: T.locate(pix))
+            t, kind = cres(cpair, lambda: T.locate(as_form(pix, p + counter[0])))
             add("locate:" + kind, f"CLocate {hb} {cpair(pix)} {t}", (key, pix))
         # clip: selections inside (and sometimes outside) the tile grid
         nsel = 3 if light else 8
@@ -642,6 +665,73 @@ def p_index(base, how, idx):
                 f"tile_shape -> {s}, crop (shape, base) -> {c}")
 
 
+def ref_bounds(base, how):
+    """tile boundaries per axis from first principles (no odc.geo code)"""
+    if isinstance(how[0], (tuple, list)):
+        return [[sum(ch[:i]) for i in range(len(ch) + 1)] for ch in how]
+    out = []
+    for N, n in zip(base, how):
+        S = -(-N // n)
+        out.append([min(i * n, N) for i in range(S + 1)])
+    return out
+
+
+def p_index_forms(base, how, rc):
+    """the same tile (r, c) / pixel, given in every accepted form (tuple, iyx_, ixy_, Index2d, XY, int/slice mixes),
+    must give the region, shape, GeoBox and locate result computed from first principles"""
+    from odc.geo.geobox import GeoboxTiles
+    r, c = rc
+    T = mk_tiles(tuple(base), how)
+    By, Bx = ref_bounds(base, how)
+    Sy, Sx = len(By) - 1, len(Bx) - 1
+    root = mk_root((By[-1], Bx[-1]))
+    G = GeoboxTiles(root, how)
+    inside = 0 <= r < Sy and 0 <= c < Sx
+    if not inside:
+        for name, f in index_forms(r, c).items():
+            got = _err(lambda: T[f])
+            empty_at_end = "slice" in name and isinstance(how[0], (tuple, list))
+            if got[0] != "IndexError" and not empty_at_end:
+                return False, f"tiles[{name} of {(r, c)}] outside the {(Sy, Sx)} grid -> {got}"
+        return True, "outside"
+    want = (By[r], By[r + 1], Bx[c], Bx[c + 1])
+    wshape = (want[1] - want[0], want[3] - want[2])
+    for name, f in index_forms(r, c).items():
+        got = _err(lambda: T[f])
+        if got[0] != "ok" or (got[1][0].start, got[1][0].stop, got[1][1].start, got[1][1].stop) != want:
+            return False, f"tiles[{name} of {(r, c)}] -> {got}, tile {(r, c)} is rows {want[:2]} cols {want[2:]}"
+        g = _err(lambda: gbox_desc(G[f], root))
+        if g != ("ok", [want[0], want[2], wshape[0], wshape[1]]):
+            return False, f"GeoboxTiles[{name} of {(r, c)}] sits at {g}, tile {(r, c)} is rows {want[:2]} cols {want[2:]}"
+        bb = _err(lambda: tuple(G.pix_bbox(f).bbox))
+        if bb != ("ok", (want[2], want[0], want[3], want[1])):
+            return False, f"GeoboxTiles.pix_bbox({name} of {(r, c)}) = {bb}"
+        if not isinstance(f, tuple):
+            continue          # crop is declared for ROI tuples only (VariableSizedTiles.crop rejects Index2d/XY objects)
+        cr = _err(lambda: tuple(T.crop(f).base.yx))
+        if cr != ("ok", wshape):
+            return False, f"tiles.crop({name} of {(r, c)}).base = {cr}, tile shape is {wshape}"
+        gc = _err(lambda: gbox_desc(G.crop[f].base, root))
+        if gc != ("ok", [want[0], want[2], wshape[0], wshape[1]]):
+            return False, f"GeoboxTiles.crop[{name} of {(r, c)}].base sits at {gc}"
+    ints = index_forms(r, c, ints_only=True)
+    ints["numpy ints"] = (np.int64(r), np.int32(c))
+    for name, f in ints.items():
+        for what, call in (("tile_shape", lambda: tuple(T.tile_shape(f).yx)), ("chunk_shape", lambda: tuple(G.chunk_shape(f).yx))):
+            got = _err(call)
+            if got != ("ok", wshape):
+                return False, f"{what}({name} of {(r, c)}) -> {got}, tile {(r, c)} has shape {wshape}"
+    if wshape[0] > 0 and wshape[1] > 0:
+        for (y, x) in {(want[0], want[2]), (want[1] - 1, want[3] - 1), (want[0], want[3] - 1)}:
+            pix = index_forms(y, x, ints_only=True)
+            pix["numpy ints"] = (np.int64(y), np.int32(x))
+            for name, f in pix.items():
+                got = _err(lambda: tuple(int(v) for v in T.locate(f)))
+                if got != ("ok", (r, c)):
+                    return False, f"locate({name} of pixel {(y, x)}) -> {got}, the pixel lies in tile {(r, c)}"
+    return True, f"tile {(r, c)} = rows {want[:2]} cols {want[2:]}"
+
+
 def p_block(base, how, block):
     """tiles[a:b, c:d] is the union of the selected tiles; a selection reaching beyond the grid raises IndexError"""
     (a, b), (c, d) = block
@@ -905,7 +995,7 @@ def p_assembler_mixed(chunks, pre, post, order, fill, roi, seed):
     return True, f"dtype={want_dt} shape={got.shape}"
 
 
-PREDICATES = {"assembler_mixed": p_assembler_mixed, "partition": p_partition, "index": p_index, "block": p_block, "locate_roundtrip": p_locate_roundtrip, "crop": p_crop,
+PREDICATES = {"assembler_mixed": p_assembler_mixed, "index_forms": p_index_forms, "partition": p_partition, "index": p_index, "block": p_block, "locate_roundtrip": p_locate_roundtrip, "crop": p_crop,
               "clip": p_clip, "geoboxtiles": p_geoboxtiles, "assembler": p_assembler}
 
 
@@ -947,6 +1037,9 @@ def search(out, tier):
     for base, how in layouts:
         run("partition", base, how)
         S = mk_tiles(base, how).shape.yx
+        cells = [(r, c) for r in range(S[0]) for c in range(S[1])]
+        for rc in (cells if len(cells) <= 6 else rng.sample(cells, 6)) + [(S[0], 0), (0, S[1]), (S[0] - 1, S[1])]:
+            run("index_forms", base, how, rc)
         for i in range(-S[0] - 2, S[0] + 2):
             run("index", base, how, (i, rng.randint(-S[1], S[1] - 1)))
         for j in range(-S[1] - 2, S[1] + 2):
